@@ -13,7 +13,7 @@ import (
 func init() {
 	Registry["C14"] = C14
 	Metas["C14"] = Meta{
-		Explanation: "Decides the access discipline C14 anchors, for every memory access reachable from the public API (the exported functions and methods of package cache, and every method of the two map types that the public cache.Map / cache.MapOf interfaces list; exported methods of the internal types that are not in those interfaces, such as Stats, are out of scope and listed as such): (A1) every write to a word that lock-free readers or other goroutines can read (bucket slots, meta/top-hash word, chain link, table pointer, resize flag, counter stripes) is a sync/atomic operation, or a plain store into an object allocated by the current activation that no instruction able to reach the store has yet published (checked through call sites for the plain-append / plain-counter helpers); (A2) every read of such a word is atomic, or plain with the bucket lock of that very chain in the must-lockset (the accessed bucket derives from the locked root; the lock taken is a chain's root bucket lock, never that of a bucket reached through a link), or on an unpublished object; (A3) immutable-after-publication fields (table header, immutable entries, map and cache header fields) are written only before publication; (A4) pointers stored into slots are nil or the address of an allocation of the current call (unique live value pointers); (A5) the settings live in sync/atomic typed fields (of the cache struct or of a struct nested in it by value) and are touched only through their atomic methods, an atomic.Value with one dynamic type per cache type; (A6) variables shared with the janitor goroutine are not written after the go statement; (A7) operands of 64-bit atomics are 8-byte aligned under the 386 layout; (A8) an object taken from a sync.Pool is handed back at most once (a Put in a deferred call plus a Put on some path of the function, its closures or the helpers the object is passed to, is reported). NOT decided: the race detector's verdict on executions, races inside user callbacks or on user values, correctness of the locks themselves (C13).",
+		Explanation: "Decides the access discipline C14 anchors, for every memory access reachable from the public API (the exported functions and methods of package cache, and every method of the two map types that the public cache.Map / cache.MapOf interfaces list; exported methods of the internal types that are not in those interfaces, such as Stats, are out of scope and listed as such): (A1) every write to a word that lock-free readers or other goroutines can read (bucket slots, meta/top-hash word, chain link, table pointer, resize flag, counter stripes) is a sync/atomic operation, or a plain store into an object allocated by the current activation that no instruction able to reach the store has yet published (checked through call sites for the plain-append / plain-counter helpers); (A2) every read of such a word is atomic, or plain with the bucket lock of that very chain in the must-lockset (the accessed bucket derives from the locked root; the lock taken is a chain's root bucket lock, never that of a bucket reached through a link), or on an unpublished object; (A3) immutable-after-publication fields (table header, immutable entries, map and cache header fields) are written only before publication; (A4) pointers stored into slots are nil or the address of an allocation of the current call (unique live value pointers); (A5) the settings live in sync/atomic typed fields (of the cache struct or of a struct nested in it by value) and are touched only through their atomic methods, an atomic.Value with one dynamic type per cache type; (A6) variables shared with the janitor goroutine are not written after the go statement; (A7) operands of 64-bit atomics are 8-byte aligned under the 386 layout; (A8) an object taken from a sync.Pool is handed back at most once (a Put in a deferred call plus a Put on some path of the function, its closures or the helpers the object is passed to, is reported); (A9) no builtin map held in a field of the shared cache / map structs (or of the module's struct types hung on them) is updated by a method, and no pointer-receiver method of a type from outside the module other than those of sync and sync/atomic is called on an object reached through such a field - unless the call is made between Lock and Unlock of a sync.Mutex / RWMutex in the same function. NOT decided: the race detector's verdict on executions, races inside user callbacks or on user values, correctness of the locks themselves (C13).",
 		Rule:        "one obligation per (rule, function, access path, access kind) over all accesses in API-reachable function bodies; non-trivial = a shared-word access or settings use whose verdict depended on its lock context, atomicity or provenance",
 		Assumptions: []string{"Go memory model: sync/atomic operations and mutex/spin-lock (CAS) pairs order the accesses they guard", "C13.L1 lock pairing holds (checked separately)", "functions unreachable from the public API (Stats) are out of scope"},
 	}
@@ -610,7 +610,7 @@ func c14SharedObjects(r *Run, rep *core.Report, reach map[*ssa.Function]bool) {
 		core.Instrs(f, func(in ssa.Instruction) {
 			switch x := in.(type) {
 			case *ssa.MapUpdate:
-				if ok, k := fromSharedField(x.Map, 0); ok && !seen["map "+k] {
+				if ok, k := fromSharedField(x.Map, 0); ok && !seen["map "+k] && !underOwnMutex(f, in) {
 					seen["map "+k] = true
 					rep.Fail("C14.A9", fn(f)+" updates the map in "+k, r.P.InstrPos(in), "a builtin map held in a field of the shared struct is updated by a method: concurrent calls race on it (builtin maps are not safe for concurrent use)")
 				}
@@ -632,6 +632,9 @@ func c14SharedObjects(r *Run, rep *core.Report, reach map[*ssa.Function]bool) {
 					return
 				}
 				if ok, k := fromSharedField(x.Common().Args[0], 0); ok {
+					if underOwnMutex(f, in) {
+						return // serialised by a mutex of the module's own: every call made between its Lock and Unlock
+					}
 					key := nt.Obj().Pkg().Path() + "." + nt.Obj().Name() + " in " + k
 					if !seen[key] {
 						seen[key] = true
@@ -643,6 +646,50 @@ func c14SharedObjects(r *Run, rep *core.Report, reach map[*ssa.Function]bool) {
 		})
 	}
 	rep.MinCount("C14.A9", "functions scanned for shared non-synchronised objects", n, 60)
+}
+
+// underOwnMutex: the instruction is dominated by a Lock of a sync.Mutex / sync.RWMutex (write lock) in the same function
+// and no Unlock of a mutex lies between on the dominator path (a coarse but sufficient test for 'the helper object has
+// a mutex of its own and is used under it'; deferred unlocks do not count as releases before the instruction).
+func underOwnMutex(f *ssa.Function, at ssa.Instruction) bool {
+	isMu := func(c ssa.CallInstruction, names ...string) bool {
+		cal := core.Callee(c)
+		if cal == nil || cal.Signature.Recv() == nil {
+			return false
+		}
+		pt, ok := cal.Signature.Recv().Type().(*types.Pointer)
+		if !ok {
+			return false
+		}
+		n, ok := pt.Elem().(*types.Named)
+		if !ok || n.Obj().Pkg() == nil || n.Obj().Pkg().Path() != "sync" || (n.Obj().Name() != "Mutex" && n.Obj().Name() != "RWMutex") {
+			return false
+		}
+		for _, nm := range names {
+			if cal.Name() == nm {
+				return true
+			}
+		}
+		return false
+	}
+	var lock ssa.Instruction
+	core.Instrs(f, func(in ssa.Instruction) {
+		c, ok := in.(*ssa.Call)
+		if ok && isMu(c, "Lock") && core.Dominates(in, at) {
+			lock = in
+		}
+	})
+	if lock == nil {
+		return false
+	}
+	released := false
+	core.Instrs(f, func(in ssa.Instruction) {
+		c, ok := in.(*ssa.Call)
+		if ok && isMu(c, "Unlock") && core.Dominates(lock, in) && core.Dominates(in, at) {
+			released = true
+		}
+	})
+	return !released
 }
 
 // holdsAtomicField: the struct type has a sync/atomic typed field, directly or in a struct nested by value (a plain
